@@ -229,6 +229,18 @@ def compare(impl_payload, model_payload, line=""):
         b.append(("shape", "normal forms of a constant-free expression do not satisfy is_nnf / is_cnf / is_dnf: %s" % I.get("shape")))
     if "s.fresh" in M and I.get("fresh") != M["s.fresh"]:
         b.append(("fresh", "a freshly built object of the same function over the same inputs is told apart: flags %s (structure/node count, equivalent x2, implied x2)" % I.get("fresh")))
+    if "s.rtv" in M and I.get("rtv") != M["s.rtv"]:
+        b.append(("rtv", "the renamed expression denotes %s, the original after renaming its arguments is %s" % (I.get("rtv"), M["s.rtv"])))
+    if "p2v" in I and line.split()[1:2] == ["p2v"]:
+        pb = line.split()[3]; pb = "" if pb == "." else pb
+        v = I["p2v"]
+        if "s.n" in M and (v != "none") != (len(pb) == int(M["s.n"])):
+            b.append(("p2v", "point of length %d, %s inputs, answer %s" % (len(pb), M["s.n"], v)))
+        if v not in ("none", "-"):
+            ks = [x.split(":")[0] for x in v.split(",")]; vs = "".join(x.split(":")[1] for x in v.split(","))
+            dec = ["" if k == "~" else bytes.fromhex(k).decode("utf-8", "replace") for k in ks]
+            if dec != sorted(set(dec)) or vs != pb:
+                b.append(("p2v", "the valuation %s does not pair the sorted inputs with the point %s" % (v, pb)))
     if I.get("pure") == "0":
         b.append(("pure", "a register no longer equals (==) the clone taken before this call, or its Debug text changed: the call altered an operand"))
     if I.get("det") == "0":
